@@ -37,7 +37,7 @@ fn fv_under(m: &C, bound: &[usize], out: &mut HashSet<usize>) {
     out.extend(inner);
 }
 
-fn fv_c(c: &C, out: &mut HashSet<usize>) {
+pub fn fv_c(c: &C, out: &mut HashSet<usize>) {
     match c {
         | C::Ret(v) | C::Force(v) | C::Exit(v) | C::ToStr(_, v) => fv_v(v, out),
         | C::Bind(x, m, _, n) => {
